@@ -99,7 +99,16 @@ class Evaluator(object):
         self.module = module
         self.clsname = clsname
         self.methods = methods or {}
-        self.functions = functions or {}
+        # pure builtins are available to the evaluated code
+        self.functions = {
+            'range': range, 'tuple': tuple, 'list': list, 'set': set,
+            'dict': dict, 'frozenset': frozenset, 'min': min, 'max': max,
+            'sum': sum, 'any': any, 'all': all, 'sorted': sorted,
+            'enumerate': enumerate, 'zip': zip, 'abs': abs, 'str': str,
+            'int': int, 'repr': repr,
+            'reversed': lambda x: list(reversed(list(x))),
+        }
+        self.functions.update(functions or {})
         self.is_subclass = is_subclass or (lambda c, b: c == b)
         self.steps = 0
         self.max_steps = max_steps
